@@ -9,14 +9,16 @@ PROP = dict(
     claim="for every configuration of the stated parameter box and every (x, d) letter pair the real filter is driven sample by sample (e = d - y "
           "bit-exactly, a-priori y from the coefficients read before the sample, y/e/coeffs against a long-double recursion, RLS against the "
           "long-double normal equations) and, for every composition of 6 granules (7 thorough) with every lock flag per frame, as complete "
-          "histories whose outputs, lock behaviour and final state are compared with the per-sample drive under the same lock pattern. "
+          "histories whose outputs and coefficients are compared sample by sample with a lock-aware long-double recursion (locked: coefficients "
+          "frozen, tap history advances, NLMS power from the true window) and, as self-consistency, with the per-sample drive under the same lock pattern. "
           "States = distinct canonical (configuration, coefficients, tap history, inverse correlation matrix, lock flag) byte images reached; "
           "transitions = process() calls; traces = complete histories executed on the implementation. Exhaustive within the bound, silent outside it.",
     note="there is no separate model: every state is read from the real object (-fno-access-control). Trusts the harness's long-double LMS/NLMS/RLS "
          "recursions; the RLS recursion is cross-checked against the normal-equation solution (real and complex) in every rls.batch case "
          "(a disagreement aborts the run with exit 4)",
-    mc_note="every state and transition is an execution of the real LmsFilter/RlsFilter; the reference for framing/lock histories is the same "
-            "implementation driven one sample per call, which is itself checked against coeffs() read before each sample and a long-double recursion",
+    mc_note="every state and transition is an execution of the real LmsFilter/RlsFilter; the oracle for every framing/lock history is an independent "
+            "lock-aware long-double recursion (y, e per sample, coeffs() after every frame, 1e-9 relative); the same implementation driven one sample "
+            "per call (checked against coeffs() read before each sample and the same recursion) is a second, self-consistency reference",
     passes=[dict(name="main", flags=["-fno-access-control"])],
     rule="adapt.step / rls.batch: a case is one (kind, real|complex, len, parameters, x letter, d letter) driven one sample per call over the horizon; "
          "adapt.hist: a case is one configuration x letter pair and contains all 2*3^(G-1) (framing, lock schedule) histories plus the 2^G per-sample "
@@ -27,7 +29,7 @@ PROP = dict(
     bounds=dict(
         quick="{LMS mu{0.01,0.1,0.5} x leak{1,0.999,0.9}; NLMS mu{0.01,0.1,0.5,1} x leak{1,0.999,0.9}; RLS lambda{0.9,0.95,0.99,1} x delta{1e-2,1,1e2,1e4}} "
               "x {real,complex} x len{2,3,4,8,16} x x-letters{LCG white, sinusoid, impulse train} x d-letters{system impulse, decaying/rotating, dense, independent}, "
-              "horizon 32, one sample per call; rls.batch on the RLS part; histories: len{2,3,4} x whole box x 3 letter pairs x all 32 framings of 6 granules "
+              "horizon 32, one sample per call; rls.batch on the RLS part; histories: len{2,3,4} x whole box x 4 letter pairs (incl. a white letter whose level steps by 20 dB between granules: 0.01, 0.1, 1, ...) x all 32 framings of 6 granules "
               "(2 samples each) x all 2^frames lock schedules (486 histories + 64 per-sample drives per case), len{8,16}: 6 parameter sets x 4 granules of len/2+1; "
               "convergence: len 2..16, 32, 64 x NLMS(mu 1, leak 1; 40*len samples) / RLS(lambda 1, delta 1e4; 4*len samples) x real/complex x 3 systems x system length {len, len/2, 1}",
         thorough="as quick with len{2,3,4,5,6,8,12,16,24,32,48,64}, horizon 64; histories with granule sizes 1, 2, 3 (6 granules) and 7 granules of 2 samples "
@@ -36,7 +38,7 @@ PROP = dict(
     assumptions=COMMON_ASSUME + [
         "output convention of both headers: y[k] = sum_j coeffs()[j] x[k-j] (plain product, no conjugate); updates use conj(u) (LMS/NLMS) and conj(g) (RLS)",
         "'a-priori' is decided by reading coeffs() before each one-sample call: |y - sum_j c[j] x[k-j]| <= (8 + 2 len) eps sum|c||x|; "
-        "multi-sample frames are compared with that per-sample drive (1e-9 relative; observed bit-identical)",
+        "multi-sample frames are compared with the lock-aware long-double recursion and with that per-sample drive (both 1e-9 relative; the latter observed bit-identical)",
         "'behave exactly as a fixed FIR filter' is read to rounding ((8 + 2 len) eps sum|c||x| against a long-double FIR over the true input history) "
         "plus bit-identical coeffs() across locked frames",
         "reference recursions compared at 1e-9 relative (norm-wise for coeffs, relative to ||c|| ||u|| + |d| for y and e); the NLMS regulariser is the header's eps()",
